@@ -76,6 +76,9 @@ type Ctl struct {
 	freeSeed  atomic.Int64
 
 	OnStep func(s Step) // optional: called after a goroutine was released and quiescence re-established
+	// OnHolders, when set, is called at every quiescent point at which two or more goroutines are parked at gates
+	// that lie inside critical sections (".locked", ".rlocked", ".bcast", ".wait" points)
+	OnHolders func(held []Arrival)
 	Log    func(format string, args ...any)
 }
 
@@ -515,6 +518,18 @@ func (c *Ctl) Run(o Options, driversDone func() bool) Result {
 			break
 		}
 		idleSpins = 0
+		if c.OnHolders != nil {
+			var held []Arrival
+			for _, a := range c.gated {
+				if strings.HasSuffix(a.Pt, ".locked") || strings.HasSuffix(a.Pt, ".rlocked") || strings.HasSuffix(a.Pt, ".bcast") || strings.HasSuffix(a.Pt, ".wait") {
+					held = append(held, *a)
+				}
+			}
+			if len(held) >= 2 {
+				sort.Slice(held, func(i, j int) bool { return held[i].Role < held[j].Role })
+				c.OnHolders(held)
+			}
+		}
 		if len(c.Steps) >= o.MaxSteps {
 			res.Infra = "step limit"
 			break
@@ -693,7 +708,7 @@ func (c *Ctl) choose(o Options) (a *Arrival, idle bool, diverged bool) {
 			c.prio[best.Role] = c.rng.Intn(1000) - stepNo*1000 // below everything so far
 		}
 		return best, false, false
-	case "hold":
+	case "hold", "holdlock":
 		// random, except that a goroutine which is about to park on a condition variable (a ".wait" gate: it has
 		// evaluated its predicate and still holds the lock) is, with probability 1/2, held back until nothing else can
 		// run: this is the window in which a wake-up can be lost
@@ -703,6 +718,9 @@ func (c *Ctl) choose(o Options) (a *Arrival, idle bool, diverged bool) {
 				c.decided[g] = true
 				if strings.HasSuffix(g.Pt, ".wait") && c.rng.Intn(2) == 0 {
 					c.held[g] = true
+				}
+				if c.strategy == "holdlock" && (strings.HasSuffix(g.Pt, ".locked") || strings.HasSuffix(g.Pt, ".rlocked")) && c.rng.Intn(2) == 0 {
+					c.held[g] = true // keep a goroutine inside its critical section while the others run towards the same lock
 				}
 			}
 			if !c.held[g] {
